@@ -4,6 +4,7 @@ package hook
 
 import (
 	"fmt"
+	"reflect"
 	"sort"
 	"sync"
 )
@@ -17,23 +18,39 @@ var BlockFn func(what string, ready func() bool)
 // LockEvent is told about lock acquisition/release by the current task (l identifies the lock).
 var LockEvent func(l any, delta int)
 
-// AccFn is told about every syntactic access the generated code makes to a field reached through a
-// pointer to one of its own struct types, or to one of its package-level variables (the in-simulator
-// happens-before race detector). base is that pointer (nil for package-level variables); it is never
-// dereferenced here.
-var AccFn func(pkg, site int, base any, loc string, write bool)
+// AccFn is told about the memory accesses of the generated code to locations that more than one task can reach
+// (the in-simulator happens-before race detector). keep holds the object alive, so that its address is not
+// reused within the run; isMap: the location is "the elements of this map".
+var AccFn func(pkg, site int, keep any, addr, size uintptr, label string, write, isMap bool)
 
-func R(pkg, site int, base any, loc string) {
-	if f := AccFn; f != nil {
-		f(pkg, site, base, loc, false)
+func acc(pkg, site int, f func() any, label string, write, isMap bool) {
+	fn := AccFn
+	if fn == nil {
+		return
 	}
+	defer func() { recover() }() // a nil pointer or an index out of range on the way: the statement will meet it itself
+	p := f()
+	v := reflect.ValueOf(p)
+	if !v.IsValid() {
+		return
+	}
+	if isMap {
+		if v.Kind() != reflect.Map || v.IsNil() {
+			return
+		}
+		fn(pkg, site, p, v.Pointer(), 1, label, write, true)
+		return
+	}
+	if v.Kind() != reflect.Pointer || v.IsNil() {
+		return
+	}
+	fn(pkg, site, p, v.Pointer(), v.Type().Elem().Size(), label, write, false)
 }
 
-func W(pkg, site int, base any, loc string) {
-	if f := AccFn; f != nil {
-		f(pkg, site, base, loc, true)
-	}
-}
+func RA(pkg, site int, f func() any, label string) { acc(pkg, site, f, label, false, false) }
+func WA(pkg, site int, f func() any, label string) { acc(pkg, site, f, label, true, false) }
+func RM(pkg, site int, f func() any, label string) { acc(pkg, site, f, label, false, true) }
+func WM(pkg, site int, f func() any, label string) { acc(pkg, site, f, label, true, true) }
 
 // PoolEvent: Put(x) happens before the Get that returns x.
 var PoolEvent func(p any, put bool)
